@@ -120,7 +120,9 @@ def run(seed, tier, lean) -> Result:
         # the API (remove_asset_from_association / remove_association / remove_asset) and only then the graph is built
         cs = (seed * 1000003 + i) if i % 3 == 2 else None
         if cs is not None: res.bump('churned_models')
-        v = check_case(spec, inst, mo, res, churn_seed=cs)
+        from ..common import guarded
+        done, v = guarded(res, check_case, spec, inst, mo, res, churn_seed=cs)
+        if not done: continue
         ops = set()
         for e in all_exprs(spec): expr_ops(e, ops)
         for o in ops: res.bump('op:' + o)
